@@ -364,12 +364,6 @@ class CnfTokenUnit(PMUnit):
     skip = {
         "unexpected": "builds a message from up to 60 bytes (Vec, format!); modelled by `Cnf.unexpected`",
         "exceeds_var_count": "formats a message (impl Display argument); modelled by `Cnf.exceedsVarCount`",
-        "clause_lits": "out-parameter `lits: &mut Vec<L>` that is assigned (`clear`, `push`) inside the `and_then` closure, "
-                       "which also contains the `while` loop: closures are translated to Lean `fun`s, which cannot assign "
-                       "variables of the enclosing function, the emitter has no out-parameters besides the state, and a "
-                       "loop is lifted to a definition whose `Ctl.ret` carries the *function's* result while `return` in "
-                       "the closure leaves only the closure; also `(-limit..=limit).contains(&lit)` and `L::from_dimacs`; "
-                       "modelled by `Cnf.clauseLits` (which returns the literals)",
     }
     rename = {"fixed": "fixedTok", "word": "wordTok", "newline": "newlineTok"}
     # hand models of skipped functions: rust name -> (Lean term, result type; "!" = never returns)
@@ -383,9 +377,13 @@ class CnfTokenUnit(PMUnit):
         ("var_count", "uint"): "Cnf.usizeTy",
         ("uint_count", "uint"): "t",
         ("clause_group", "braced_uint"): "Cnf.usizeTy",
+        ("clause_lits", "int"): "Cnf.isizeTy",
     }
     # the comment / newline loop: every iteration that does not leave the loop consumes at least one byte
-    fuel = {"non_terminating_linebreaks": "(← PMExt.getLR).v.rest.length + 1"}
+    fuel = {"non_terminating_linebreaks": "(← PMExt.getLR).v.rest.length + 1",
+            # the model's fuel for the literal loop; its out-of-fuel value is `rpanic "fuel"` as well
+            "clause_lits": "(← PMExt.getLR).v.rest.length + 2"}
+    fuel_panic = {"clause_lits": '(PM.rpanic "fuel")'}
     dimacs_binder = "(l : Cnf.LitTy)"
 
     def __init__(self):
@@ -397,6 +395,38 @@ class CnfTokenUnit(PMUnit):
             "Parsed<usize, ParseError>": "Option Int", "Parsed<T, ParseError>": "Option Int", "isize": "Int",
         })
         self.consts["L::MAX_DIMACS"] = ("l.maxDimacs", "isize")
+        self.consts["Vec::new_empty"] = ("([] : List Int)", "Vec<L>")
+        self.types.update({"Parsed<Vec<L>, ParseError>": "Option (List Int)", "Vec<L>": "List Int", "L": "Int",
+                           "Parsed<isize, ParseError>": "Option Int"})
+
+        def pushed(em, c, e, env, hint):
+            a = em.cexpr(e[3][0], env, "L")
+            return Code(f"({c.val} ++ [{a.val}])", "Vec<L>", c.pre + a.pre)
+
+        self.value_methods = dict(self.value_methods)
+        self.value_methods[("Vec<L>", "pushed")] = pushed
+
+        def from_dimacs(em, e, env, hint):
+            a = em.cexpr(e[2][0], env, "isize")
+            return Code(f"(l.fromDimacs {paren(a.val)})", "L", a.pre)
+
+        self.functions["L::from_dimacs"] = from_dimacs
+
+        def contains(em, e, env, hint):
+            # (-limit..=limit).contains(&lit)
+            if not (e[0] == "mcall" and e[2] == "contains" and len(e[3]) == 1):
+                return None
+            r = strip_ref(e[1])
+            if not (r[0] == "range" and r[3] and r[1] is not None and r[2] is not None):
+                return None
+            lo = em.cexpr(r[1], env, "isize")
+            hi = em.cexpr(r[2], env, "isize")
+            x = em.cexpr(e[3][0], env, "isize")
+            return Code(f"(decide ({lo.val} ≤ {x.val}) && decide ({x.val} ≤ {hi.val}))", "bool", lo.pre + hi.pre + x.pre)
+
+        self.chain_handlers = [contains] + list(self.chain_handlers)
+        self.neg = dict(self.neg)
+        self.neg["isize"] = "(-{})"
         self.casts = dict(self.casts)
         self.casts[("isize", "usize")] = "(CnfTokenExt.isizeAsUsize {})"
         u = self
@@ -431,7 +461,65 @@ class CnfTokenUnit(PMUnit):
             if f.generics and re.fullmatch(r"<\s*L\s*:\s*Dimacs\s*>", f.generics.strip()):
                 f.generics = None
                 self.extra_binders[f.name] = self.dimacs_binder
+        if "clause_lits" in d:
+            self.normalise_clause_lits(d["clause_lits"])
         self._fns = d
+
+    def normalise_clause_lits(self, f):
+        """`clause_lits(input, lits: &mut Vec<L>, limit, hard_limit) -> Parsed<(), ParseError>` fills the
+        out-parameter `lits` inside the closure of a final `.and_then(|mut lit| { lits.clear(); … Ok(()) })`.
+        It is translated as the function that *returns* the literals:
+          * the parameter `lits` becomes a local `let mut lits = <empty>` (the closure clears it first thing,
+            and on `Fallthrough` / error the caller does not look at it); `lits.clear()` / `lits.push(x)` become
+            assignments; the closure's final `Ok(())` becomes `Res(Ok(lits))`;
+          * `p.and_then(|mut lit| BODY)` in tail position becomes `if let Res(Ok(lit)) = p { BODY } else { Fallthrough }`
+            (`Parsed::and_then`, parser.rs, tied by Props/TieParsed; an error of `p` has already been thrown), so
+            that `return Err(..)` inside BODY — which leaves only the closure, whose result `and_then` wraps in
+            `Res(..)` — is the function's result, as it is in Rust.
+        Any other shape of the function is a translation failure."""
+        body = f.body
+        tail = body[2]
+        ok = (tail is not None and tail[0] == "mcall" and tail[2] == "and_then" and len(tail[3]) == 1
+              and tail[3][0][0] == "closure" and len(tail[3][0][1]) == 1)
+        params = [p for p in f.params if p[0] != "self"]
+        ok = ok and len(params) == 4 and params[1][0][0] == "pbind" and params[1][0][1] == "lits"
+        if not ok:
+            raise TErr("cnftoken::clause_lits: the function no longer has the shape `… .and_then(|mut lit| { … })` with the out-parameter `lits`")
+        cl = tail[3][0]
+        cpat, cbody = cl[1][0], cl[2]
+        if cbody[0] != "block":
+            raise TErr("cnftoken::clause_lits: closure body")
+
+        def rw(t):
+            if isinstance(t, list):
+                return [rw(x) for x in t]
+            if not isinstance(t, tuple):
+                return t
+            if t and t[0] == "expr" and isinstance(t[1], tuple) and t[1][0] == "mcall" and t[1][1] == ("path", ["lits"]):
+                m = t[1]
+                if m[2] == "clear" and not m[3]:
+                    return ("assign", "=", ("path", ["lits"]), ("path", ["Vec", "new_empty"]))
+                if m[2] == "push" and len(m[3]) == 1:
+                    return ("assign", "=", ("path", ["lits"]), ("mcall", ("path", ["lits"]), "pushed", [rw(m[3][0])]))
+                raise TErr("cnftoken::clause_lits: use of `lits` other than clear / push")
+            return tuple(rw(x) for x in t)
+
+        new_stmts = rw(cbody[1])
+        last = cbody[2]
+        if not (last is not None and last[0] == "call" and last[1] == ("path", ["Ok"]) and last[2] == [("tuple", [])]):
+            raise TErr("cnftoken::clause_lits: the closure is expected to end in Ok(())")
+        new_tail = ("call", ("path", ["Res"]), [("call", ("path", ["Ok"]), [("path", ["lits"])])])
+        if cpat[0] != "pbind":
+            raise TErr("cnftoken::clause_lits: closure parameter")
+        rebind = ("let", ("pbind", cpat[1], False, True, None), "isize", ("path", [cpat[1]]), None)
+        inner = ("block", [rebind] + new_stmts, new_tail, False)
+        # `Parsed<isize, ParseError>` is an `Option` in this unit (errors are thrown): Res(Ok(x)) = Some(x)
+        scrut_pat = ("pts", ["Some"], [("pbind", cpat[1], False, False, None)])
+        iflet = ("iflet", scrut_pat, tail[1], inner, ("block", [], ("path", ["Fallthrough"]), False))
+        decl = ("let", ("pbind", "lits", False, True, None), "Vec<L>", ("path", ["Vec", "new_empty"]), None)
+        f.body = ("block", [decl] + list(body[1]), iflet, body[3])
+        f.params = [p for p in f.params if not (p[0] != "self" and p[0][0] == "pbind" and p[0][1] == "lits")]
+        f.ret = "Parsed<Vec<L>, ParseError>"
 
     def local_fn(self, short, path):
         # calls of the generic number tokens: the instance is chosen by `instances`
